@@ -331,7 +331,7 @@ func checkC05(c *Ctx) {
 					if !ok {
 						return
 					}
-					v, isC := eng.ConstBool(ret.Results[0])
+					v, isC := eng.ConstBool(eng.ReturnResults(ret)[0])
 					under := tEdge.Dominates(ret.Block())
 					if !isC {
 						probs = append(probs, "non-constant return at "+p.InstrPos(ret))
@@ -430,7 +430,7 @@ func (c *Ctx) c05SliceContains() {
 		if !ok {
 			return
 		}
-		v, isC := eng.ConstBool(ret.Results[0])
+		v, isC := eng.ConstBool(eng.ReturnResults(ret)[0])
 		if !isC {
 			bad = "non-constant return"
 			return
